@@ -294,3 +294,23 @@ Example C09_example_unsolicited_close_response :
   close_sent s = false /\ saw_close s = false /\ length (peer_sent s) = 4%nat /\
   phase s = PReturned (CErrLoop ERead) /\ closed s = true /\ caller_result s 1 = Some (ROk 1%nat (ccr 0)).
 Proof. vm_compute. repeat split; reflexivity. Qed.
+
+(* ---- round-6 addendum: CloseConnection that nobody waits for ----
+   C09_silent_after_close_conn speaks of every frame of type CloseConnection in [out], whatever request put it there: the write loop
+   parks on the message TYPE (after_frame), not on the sender having asked for a reply. Non-vacuity for the fire-and-forget case:
+   CloseConnection through SendNoWait (q_wait = false) on a served 1.0.1 connection, then a keep-alive from the reader (its
+   acknowledgement is queued) and another request: nothing is written after the CloseConnection frame, the write loop is parked,
+   and the read loop takes the reader's response for the announced end of the session. *)
+Definition close_nowait_session : list event :=
+  [ConnStart; ConnFirst ren1 HBNone; ConnReady; RCheck;
+   Submit 1 (rq 2 5 101); PassGate 1; WDefault; WAccept 1; WWriteHdr; WWritePay;
+   Submit 3 (sendnowait_req T_CloseConnection 0 0); PassGate 3; WDefault; WAccept 3; WWriteHdr;
+   RFrame (mkFrame 1 T_KeepAlive 77 0 0 IOpaque) HBNone; RCheck; WTakeAck; WDefault; WWriteHdr;
+   Submit 4 (rq 3 0 0); PassGate 4; WDefault; WAccept 4; WWriteHdr;
+   RFrame (mkFrame 1 T_CloseConnectionResponse 1 8 9 (IStatus 0)) HBNone; RCheck; PeerEOF EofBoundary].
+Example C09_example_close_connection_without_waiting :
+  let s := xrun false cfg10 close_nowait_session in
+  map (fun o => f_typ (o_frame o)) (out s) = [2; T_CloseConnection] /\ writer s = WParked /\
+  caller_result s 3 = Some RSent /\ ackq s = [77] /\ caller_phase s 4 = Some (Queued (rq 3 0 0)) /\
+  close_sent s = true /\ saw_close s = true /\ reader s = RWaitDone /\ errs s = [].
+Proof. vm_compute. repeat split; reflexivity. Qed.
